@@ -77,8 +77,8 @@ theorem compile_gstmt : ∀ (fuel : Nat),
         simp only [Frag.wsGS, Bool.and_eq_true] at hws
         obtain ⟨⟨hwa, hwb⟩, hwS⟩ := hws
         obtain ⟨f', rfl⟩ : ∃ f', fuel = f' + 1 := ⟨fuel - 1, by have := cdE_pos a; omega⟩
-        have hGE : ∀ (e : Expr) (cs : CState), Frag.okGE e = true → Frag.cdE e ≤ f' → CompGE f' e cs :=
-          (compile_gexpr f').1
+        have hGE : ∀ (e : Expr) (cs : CState), Frag.okE fr e = true → Frag.cdE e ≤ f' → CompGE f' e cs :=
+          (compile_gexpr fr f').1
         have ihSs' := (ihAll f' (by omega)).2.1
         have hpush : ∀ (e : Expr), Frag.wsGE env.scopes (φOf cs) e = true →
             Frag.wsGE ([] :: env.scopes) (φOf cs) e = true := by
@@ -125,7 +125,7 @@ theorem compile_gstmt : ∀ (fuel : Nat),
         simp only [List.append_assoc, List.cons_append, List.nil_append]
         rfl
       case letS sp name vty needsCast oty e =>
-        simp only [Frag.okFS, Bool.and_eq_true, Bool.not_eq_eq_eq_not, Bool.not_true, Bool.or_eq_true] at hs
+        simp only [Frag.okFS, Bool.and_eq_true, Bool.not_eq_eq_eq_not, Bool.not_true] at hs
         obtain ⟨hnc, he⟩ := hs
         subst hnc
         simp only [Frag.cdS] at hd
@@ -133,9 +133,9 @@ theorem compile_gstmt : ∀ (fuel : Nat),
         obtain ⟨f', rfl⟩ : ∃ f', fuel = f' + 1 := ⟨fuel - 1, by omega⟩
         rw [compileStmt, cgS]
         refine bind_run _ _ _ _ (freshVar cs.currModule
-          { env with lm := (cgL cs.currModule (ρS env.scopes) (φOf cs) e env.lm).2 } name).1 _ ?_ rfl
+          { env with lm := (cgE cs.currModule (ρS env.scopes) (φOf cs) e env.lm).2 } name).1 _ ?_ rfl
         rw [compileLet]
-        refine bind_run _ _ _ _ _ _ (compile_lexpr f' e cs (he.imp id (fun h => h.2)) (by omega) L c0 env hws) ?_
+        refine bind_run _ _ _ _ _ _ (compile_vexpr fr f' e cs he (by omega) L c0 env hws) ?_
         simp only [Bool.false_eq_true, if_false]
         refine bind_run _ _ _ _ _ _ (mangleVar_run_S _ _ _ _ _) ?_
         refine bind_run _ _ _ _ _ _ (emit_run_S _ _ _ _ _ _) ?_
@@ -143,8 +143,8 @@ theorem compile_gstmt : ∀ (fuel : Nat),
         simp only [List.append_assoc]
         rfl
       case exprS sp e =>
-        have hGE : ∀ f, f ≤ fuel → ∀ (e : Expr) (cs : CState), Frag.okGE e = true → Frag.cdE e ≤ f → CompGE f e cs :=
-          fun f _ => (compile_gexpr f).1
+        have hGE : ∀ f, f ≤ fuel → ∀ (e : Expr) (cs : CState), Frag.okE fr e = true → Frag.cdE e ≤ f → CompGE f e cs :=
+          fun f _ => (compile_gexpr fr f).1
         rcases okGS_exprS_inv _ _ _ sp e hs with ⟨asp, op, isp, ity, name, isFn, r, rfl, hr, hlog⟩ |
           ⟨isp, ty, cnd, t, eb, rfl, hty, hcnd, ht, heb⟩ | ⟨isp, ty, cnd, t, rfl, hty, hcnd, ht⟩ |
           ⟨csp, cty, isp, ity, name, g, f, si, args, sw, rfl, hcase⟩ | ⟨tsp, tty, tb, ci, cb, rfl, htty, htb, hcb⟩ |
@@ -153,7 +153,7 @@ theorem compile_gstmt : ∀ (fuel : Nat),
         rotate_right
         · -- `l.push(x);`
           simp only [Frag.okFS, Bool.and_eq_true, beq_iff_eq] at hs
-          obtain ⟨⟨⟨⟨_, _⟩, hnull⟩, hb⟩, hat⟩ := hs
+          obtain ⟨⟨⟨⟨⟨_, _⟩, hnull⟩, hb⟩, hoa⟩, _⟩ := hs
           simp only [Frag.cdS, Frag.cdX] at hd
           simp only [Frag.cdArgs, List.length_cons, List.length_nil] at hd
           obtain ⟨f', rfl⟩ : ∃ f', fuel = f' + 3 := ⟨fuel - 3, by have := cdE_pos b; have := cdE_pos a.2; omega⟩
@@ -161,7 +161,6 @@ theorem compile_gstmt : ∀ (fuel : Nat),
           obtain ⟨hwb, hwa⟩ := hws
           have hwa' : Frag.wsGE env.scopes (φOf cs) a.2 = true := by
             simpa [Frag.wsGArgs, Frag.varsGArgs, Frag.callsGArgs, Frag.wsGE] using hwa
-          have hoka : Frag.okGE a.2 = true := okGE_of_atom a.2 hat
           rw [compileStmt, cgS]
           refine bind_run _ _ _ (updS cs L (c0 ++ _) _) () _ ?_ (by simp [Expr.ty, hnull]; rfl)
           rw [compileExpr]
@@ -170,12 +169,12 @@ theorem compile_gstmt : ∀ (fuel : Nat),
               ((), updS cs L (c0 ++ (cgE cs.currModule (ρS env.scopes) (φOf cs) a.2 env.lm).1)
                 { env with lm := (cgE cs.currModule (ρS env.scopes) (φOf cs) a.2 env.lm).2 }) := by
             rw [compileExprs]
-            refine bind_run _ _ _ _ _ _ ((compile_gexpr (f' + 1)).1 a.2 cs hoka (by omega) L c0 env hwa') ?_
+            refine bind_run _ _ _ _ _ _ (compile_vexpr fr (f' + 1) a.2 cs hoa (by omega) L c0 env hwa') ?_
             rw [compileExprs]; rfl
           refine bind_run _ _ _ _ _ _ hargs ?_
           simp only [Bool.false_eq_true, if_false]
           rw [compileExpr]
-          have hbase := compile_xexpr (f' + 1) b cs hb (by omega) L
+          have hbase := compile_vexpr fr (f' + 1) b cs hb (by omega) L
             (c0 ++ (cgE cs.currModule (ρS env.scopes) (φOf cs) a.2 env.lm).1)
             { env with lm := (cgE cs.currModule (ρS env.scopes) (φOf cs) a.2 env.lm).2 } hwb
           refine bind_run _ _ _ _ _ _ (bind_run _ _ _ _ _ _ hbase (emit_run_S _ _ _ _ _ _)) ?_
@@ -198,18 +197,18 @@ theorem compile_gstmt : ∀ (fuel : Nat),
           rw [compileExpr]
           rotate_left
           · intro _ _ _ _ _ _ h; cases h
-          refine bind_run _ _ _ _ _ _ (compile_xexpr f' _ cs hl (by omega) L c0 env hwl) ?_
+          refine bind_run _ _ _ _ _ _ (compile_vexpr fr f' _ cs hl (by omega) L c0 env hwl) ?_
           cases op with
           | none =>
             simp only [opPre, opPost]
-            refine bind_run _ _ _ _ _ _ (compile_xexpr f' r cs hr (by omega) L _ _ hwr) ?_
+            refine bind_run _ _ _ _ _ _ (compile_vexpr fr f' r cs hr (by omega) L _ _ hwr) ?_
             rw [emit_run_S]
             simp only [List.append_assoc, List.nil_append]
           | some o =>
             have hlog : Frag.isLogical o = false := by simpa [opOK] using hop
             simp only [opPre, opPost]
             refine bind_run _ _ _ _ _ _ (emit_run_S _ _ _ _ _ _) ?_
-            refine bind_run _ _ _ _ _ _ (compile_xexpr f' r cs hr (by omega) L _ _ hwr) ?_
+            refine bind_run _ _ _ _ _ _ (compile_vexpr fr f' r cs hr (by omega) L _ _ hwr) ?_
             refine bind_run _ _ _ _ _ _ (arith_run_S _ _ _ _ _ _ hlog) ?_
             rw [emit_run_S]
             simp only [List.append_assoc, List.cons_append, List.nil_append]
@@ -228,18 +227,18 @@ theorem compile_gstmt : ∀ (fuel : Nat),
           rw [compileExpr]
           rotate_left
           · intro _ _ _ _ _ _ h; cases h
-          refine bind_run _ _ _ _ _ _ (compile_xexpr f' _ cs hl (by omega) L c0 env hwl) ?_
+          refine bind_run _ _ _ _ _ _ (compile_vexpr fr f' _ cs hl (by omega) L c0 env hwl) ?_
           cases op with
           | none =>
             simp only [opPre, opPost]
-            refine bind_run _ _ _ _ _ _ (compile_xexpr f' r cs hr (by omega) L _ _ hwr) ?_
+            refine bind_run _ _ _ _ _ _ (compile_vexpr fr f' r cs hr (by omega) L _ _ hwr) ?_
             rw [emit_run_S]
             simp only [List.append_assoc, List.nil_append]
           | some o =>
             have hlog : Frag.isLogical o = false := by simpa [opOK] using hop
             simp only [opPre, opPost]
             refine bind_run _ _ _ _ _ _ (emit_run_S _ _ _ _ _ _) ?_
-            refine bind_run _ _ _ _ _ _ (compile_xexpr f' r cs hr (by omega) L _ _ hwr) ?_
+            refine bind_run _ _ _ _ _ _ (compile_vexpr fr f' r cs hr (by omega) L _ _ hwr) ?_
             refine bind_run _ _ _ _ _ _ (arith_run_S _ _ _ _ _ _ hlog) ?_
             rw [emit_run_S]
             simp only [List.append_assoc, List.cons_append, List.nil_append]
@@ -254,7 +253,7 @@ theorem compile_gstmt : ∀ (fuel : Nat),
             rw [compileExpr]
             refine bind_run _ _ _ _ _ _ (getMangled_run_S _ _ _ _ _) ?_
             simp only [Bool.or_self, Bool.false_eq_true, if_false]
-            refine bind_run _ _ _ _ _ _ (compile_xexpr f' r cs hr (by omega) L c0 env hvr) ?_
+            refine bind_run _ _ _ _ _ _ (compile_vexpr fr f' r cs hr (by omega) L c0 env hvr) ?_
             rw [emit_run_S]
             simp only [List.append_assoc]
           | some o =>
@@ -265,7 +264,7 @@ theorem compile_gstmt : ∀ (fuel : Nat),
             refine bind_run _ _ _ _ _ _ (getMangled_run_S _ _ _ _ _) ?_
             simp only [Bool.or_self, Bool.false_eq_true, if_false]
             refine bind_run _ _ _ _ _ _ (emit_run_S _ _ _ _ _ _) ?_
-            refine bind_run _ _ _ _ _ _ (compile_xexpr f' r cs hr (by omega) L _ env hvr) ?_
+            refine bind_run _ _ _ _ _ _ (compile_vexpr fr f' r cs hr (by omega) L _ env hvr) ?_
             refine bind_run _ _ _ _ _ _ (arith_run_S _ _ _ _ _ _ hlog) ?_
             rw [emit_run_S]
             simp only [List.append_assoc, List.cons_append, List.nil_append]
@@ -323,7 +322,7 @@ theorem compile_gstmt : ∀ (fuel : Nat),
                 simp only [List.mem_map, List.mem_reverse] at he
                 obtain ⟨a, ha, rfl⟩ := he
                 have := cdArgs_mem args a ha
-                exact hGE f'' (by omega) a.2 cs (okGArgs_mem args hoka a ha) (by omega))
+                exact hGE f'' (by omega) a.2 cs (okGArgs_mem fr args hoka a ha) (by omega))
               (by simp only [List.length_map, List.length_reverse]; omega) L c0 env
               (by
                 intro e he
@@ -553,7 +552,7 @@ theorem compile_gstmt : ∀ (fuel : Nat),
         refine bind_run _ _ _ _ _ _ (mangleLabel_run_S _ _ _ _ _) ?_
         refine bind_run _ _ _ _ _ _ (mangleLabel_run_S _ _ _ _ _) ?_
         refine bind_run _ _ _ _ _ _ (emit_run_S _ _ _ _ _ _) ?_
-        refine bind_run _ _ _ _ _ _ ((compile_gexpr fuel).1 c cs hc (by omega) L _ _ hvc) ?_
+        refine bind_run _ _ _ _ _ _ ((compile_gexpr fr fuel).1 c cs hc (by omega) L _ _ hvc) ?_
         refine bind_run _ _ _ _ _ _ (emit_run_S _ _ _ _ _ _) ?_
         refine bind_run _ _ _ (updS cs (_ :: L) _ _) _ _ rfl ?_
         refine bind_run _ _ _ _ _ _ (ihB body cs (_ :: L) true rt hrt (fun _ => ⟨_, _, _, rfl⟩) hb (by omega) _ _ hwb) ?_
@@ -615,7 +614,7 @@ theorem compile_gstmt : ∀ (fuel : Nat),
           simp only [Frag.cdS] at hd
           simp only [Frag.wsGS, Bool.and_eq_true] at hws
           rw [compileStmt, cgS]
-          refine bind_run _ _ _ _ _ _ ((compile_gexpr fuel).1 e cs hs (by omega) L c0 env hws.1) ?_
+          refine bind_run _ _ _ _ _ _ ((compile_gexpr fr fuel).1 e cs hs (by omega) L c0 env hws.1) ?_
           refine bind_run _ _ _ _ (updS cs L _ _) _ rfl ?_
           show (do popTries sp cs.tryDepth; Comp.emit (.jump (← cleanupLabel)) sp : C Unit).run _ = _
           rw [htd]
